@@ -16,7 +16,10 @@ VERIF_REPO="$S/repo" VERIF_SCRATCH="$S" ./check "$PID" "$TIER" > "$S/out.txt" 2>
 RC=$?
 grep -A1 "^VIOLATION" "$S/out.txt" | head -8
 tail -2 "$S/out.txt"
-if [ $RC -eq 1 ] && grep -q "^VIOLATION property=$PID" "$S/out.txt"; then echo "RESULT $PID $PATCH caught"; 
-elif [ $RC -eq 0 ]; then echo "RESULT $PID $PATCH missed";
-else echo "RESULT $PID $PATCH error(rc=$RC)"; fi
+if [ $RC -eq 1 ] && grep -q "^VIOLATION property=$PID" "$S/out.txt"; then V="caught";
+elif [ $RC -eq 0 ]; then V="missed";
+else V="error(rc=$RC)"; fi
+echo "RESULT $PID $PATCH $V"
+# the persistent record (latest line per change wins): verdict, tier, /verif commit, /repo commit, first violation text
+echo "RESULT $PID $PATCH $V tier=$TIER verif=$(git -C /verif rev-parse --short HEAD) repo=$(git -C /repo rev-parse --short HEAD) :: $(grep -A1 '^VIOLATION' "$S/out.txt" | sed -n 2p | cut -c1-200)" >> /verif/.build/mutant_results.txt
 git -C /repo worktree remove --force "$S/repo"; rm -rf "$S"
